@@ -162,6 +162,21 @@ func normLit(e condEdge) Lit {
 // reachingLits returns the normalised literals of every acyclic path from `from` to the block of
 // instr.
 func reachingLits(fn *ssa.Function, from *ssa.BasicBlock, instr ssa.Instruction) ([][]Lit, bool) {
+	if flatOff || len(flattenable) == 0 {
+		return reachingLitsOwn(fn, from, instr)
+	}
+	var paths [][]Lit
+	var ok bool
+	if from == nil {
+		paths, ok = reachingLitsFlat(fn, instr, 0)
+	} else {
+		paths, ok = reachingLitsOwn(fn, from, instr)
+	}
+	paths, oke := expandHelperNilChecks(paths, 0)
+	return paths, ok && oke
+}
+
+func reachingLitsOwn(fn *ssa.Function, from *ssa.BasicBlock, instr ssa.Instruction) ([][]Lit, bool) {
 	paths, ok := pathsTo(fn, from, instr.Block())
 	out := make([][]Lit, len(paths))
 	for i, p := range paths {
@@ -395,6 +410,13 @@ func origins(v ssa.Value) tagSet {
 		seen[v] = true
 		switch x := v.(type) {
 		case *ssa.Parameter:
+			if args := helperArgs(x); len(args) > 0 {
+				// a parameter of a new helper stands for what its callers pass
+				for _, a := range args {
+					walk(a, depth+1)
+				}
+				return
+			}
 			out["param:"+x.Name()] = true
 		case *ssa.Const:
 			if x.Value == nil {
@@ -424,6 +446,13 @@ func origins(v ssa.Value) tagSet {
 			}
 		case *ssa.Call:
 			cc := x.Common()
+			if vals, ok := helperResults(x, 0); ok && cc.Signature().Results().Len() == 1 {
+				// the result of a new helper is what it returns
+				for _, e := range vals {
+					walk(e, depth+1)
+				}
+				return
+			}
 			if cc.IsInvoke() {
 				out["invoke:"+cc.Method.Name()] = true
 				walk(cc.Value, depth+1)
@@ -439,6 +468,14 @@ func origins(v ssa.Value) tagSet {
 				walk(a, depth+1)
 			}
 		case *ssa.Extract:
+			if call, ok := x.Tuple.(*ssa.Call); ok {
+				if vals, ok := helperResults(call, x.Index); ok {
+					for _, e := range vals {
+						walk(e, depth+1)
+					}
+					return
+				}
+			}
 			walk(x.Tuple, depth+1)
 		case *ssa.Lookup:
 			name := "maplookup"
@@ -657,6 +694,9 @@ func exprNameD(v ssa.Value, d int) string {
 				return name
 			}
 		}
+		if n, ok := helperParamName(x, d); ok {
+			return n
+		}
 		if aliasParams && x.Parent() != nil {
 			for i, p := range x.Parent().Params {
 				if p == x {
@@ -716,9 +756,19 @@ func exprNameD(v ssa.Value, d int) string {
 	case *ssa.TypeAssert:
 		return exprNameD(x.X, d+1) + ".(" + types.TypeString(x.AssertedType, func(p *types.Package) string { return p.Name() }) + ")"
 	case *ssa.Extract:
+		if call, ok := x.Tuple.(*ssa.Call); ok {
+			if n, ok := helperResultName(call, x.Index, d); ok {
+				return n
+			}
+		}
 		return exprNameD(x.Tuple, d+1) + "#" + fmt.Sprint(x.Index)
 	case *ssa.Call:
 		cc := x.Common()
+		if cc.Signature().Results().Len() == 1 {
+			if n, ok := helperResultName(x, 0, d); ok {
+				return n
+			}
+		}
 		if b, ok := cc.Value.(*ssa.Builtin); ok {
 			var as []string
 			for _, a := range cc.Args {
@@ -1022,15 +1072,6 @@ func linCmpOf(l Lit) (linCmp, bool) {
 // ---------------------------------------------------------------------------------------------
 // instruction helpers
 
-// forEachInstr visits every instruction of fn (not of its closures).
-func forEachInstr(fn *ssa.Function, f func(ssa.Instruction)) {
-	for _, b := range fn.Blocks {
-		for _, in := range b.Instrs {
-			f(in)
-		}
-	}
-}
-
 // withClosures returns fn and the anonymous functions nested in it.
 func withClosures(fn *ssa.Function) []*ssa.Function {
 	out := []*ssa.Function{fn}
@@ -1077,6 +1118,9 @@ func instrIndex(in ssa.Instruction) int {
 
 // instrDominates: a is executed before b on every path reaching b.
 func instrDominates(a, b ssa.Instruction) bool {
+	if a.Parent() != b.Parent() {
+		return instrDominatesCross(a, b)
+	}
 	if a.Block() == b.Block() {
 		return instrIndex(a) < instrIndex(b)
 	}
